@@ -257,6 +257,9 @@ func (vm *VM) RunCase(spec CaseSpec) CaseResult {
 	res.Functions = vm.FnSeen
 	res.Discharged = vm.intExtra("discharged")
 	res.Suppressed = vm.intExtra("suppressed_findings")
+	if n := vm.intExtra("pinned_products"); n > 0 {
+		res.Inconclusive["a product of two symbolic factors: the path continued with one factor pinned to a witness value (explored at that value only)"] += n
+	}
 	for k, v := range vm.Extra {
 		if strings.HasPrefix(k, "assert_unknown:") {
 			res.AssertUnk[strings.TrimPrefix(k, "assert_unknown:")] = v.(int)
